@@ -158,7 +158,9 @@ UNIT = Unit(
         arm("resolve_match", "ast::Expr::EMatch { expr, arms, astptr } => {", "expr: &Box<ast::Expr>, arms: &Vec<ast::Arm>, astptr: &ast::MySyntaxNodePtr",
             "env_names(final(env).0@) == env_names(old(env).0@) + leak(**expr)",
             fixed_loop("env_names(env.0@) == env_names(old(env).0@) + leak(**expr),"),
-            obligation="a match arm is a scope: pattern variables and bindings of the arm body are not visible after the match"),
+            rewrites=[(re.compile(r"self\.resolve_pat\(&arm\.pat, &mut (\w+), ctx, hir_table\)"), r"self.resolve_arm_pat(&arm.pat, &mut \1, Ghost(env_names(env.0@)), ctx, hir_table)", "*")],
+            obligation="a match arm is a scope: pattern variables and bindings of the arm body are not visible after the match, nor in a LATER arm (each arm's pattern is "
+                       "resolved in a scope holding exactly the names visible where the match stands)"),
         arm("resolve_closure", "ast::Expr::EClosure {\n                params,\n                body,\n                astptr,\n            } => {",
             "params: &Vec<ast::ClosureParam>, body: &Box<ast::Expr>, astptr: &ast::MySyntaxNodePtr",
             SAME, fixed_loop("env.0@ == old(env).0@,"),
